@@ -155,3 +155,99 @@ pub fn stub_is_mapped(a: Address) -> bool {
     let a = a.as_usize();
     unsafe { a != 0 && ((a >= MAPPED[0].0 && a < MAPPED[0].1) || (a >= MAPPED[1].0 && a < MAPPED[1].1) || (a >= MAPPED[2].0 && a < MAPPED[2].1)) }
 }
+
+// ---------------------------------------------------------------------------------------------
+// E2, two windows (C37): the first half of SWIN is the table slice of one spec, the second half
+// the slice of a second spec whose table lies `SWIN2_DELTA` bytes further on in the side-metadata
+// address space.  Under Kani every access is redirected by stubs to SWIN; natively the second
+// window is a real page mapped at that distance from SWIN.
+
+pub const SWIN_HALF: usize = SWIN_LEN / 2;
+pub static mut SWIN2_DELTA: usize = 0;
+
+/// Native only: map the page that holds the second window.
+pub fn swin2_prepare(delta: usize) {
+    unsafe {
+        SWIN2_DELTA = delta;
+    }
+    #[cfg(not(kani))]
+    {
+        use mmtk::util::os::*;
+        let a = swin_base() + delta;
+        let page = a & !4095;
+        let strategy = MmapStrategy::new(HugePageSupport::No, MmapProtection::ReadWrite, false, true);
+        let _ = OS::dzmmap(unsafe { Address::from_usize(page) }, 8192, strategy, &MmapAnnotation::Misc { name: "verif-swin2" });
+    }
+}
+
+/// Index into SWIN for a (fake) metadata address of either window, or SWIN_LEN if outside.
+#[cfg(kani)]
+fn swin_index(a: usize, size: usize) -> usize {
+    let b = swin_base();
+    let d = unsafe { SWIN2_DELTA };
+    if a >= b && a + size <= b + SWIN_HALF {
+        a - b
+    } else if d != 0 && a >= b + d && a + size <= b + d + SWIN_HALF {
+        SWIN_HALF + (a - b - d)
+    } else {
+        SWIN_LEN
+    }
+}
+
+/// Read/write byte `i` of the second window (oracle side).
+pub fn swin2_get(i: usize) -> u8 {
+    #[cfg(kani)]
+    unsafe {
+        SWIN.0[SWIN_HALF + i]
+    }
+    #[cfg(not(kani))]
+    unsafe {
+        *((swin_base() + SWIN2_DELTA + i) as *const u8)
+    }
+}
+
+#[cfg(kani)]
+pub unsafe fn stub2_addr_load<T: Copy>(a: Address) -> T {
+    let i = swin_index(a.as_usize(), core::mem::size_of::<T>());
+    kani::assert(i < SWIN_LEN, "load outside the metadata windows");
+    core::ptr::read_unaligned(SWIN.0.as_ptr().add(i) as *const T)
+}
+#[cfg(not(kani))]
+pub unsafe fn stub2_addr_load<T: Copy>(a: Address) -> T {
+    a.load::<T>()
+}
+
+#[cfg(kani)]
+pub unsafe fn stub2_u8_fetch_or(a: Address, v: u8, _o: core::sync::atomic::Ordering) -> u8 {
+    let i = swin_index(a.as_usize(), 1);
+    kani::assert(i < SWIN_LEN, "fetch_or outside the metadata windows");
+    let old = SWIN.0[i];
+    SWIN.0[i] = old | v;
+    old
+}
+#[cfg(not(kani))]
+pub unsafe fn stub2_u8_fetch_or(a: Address, v: u8, o: core::sync::atomic::Ordering) -> u8 {
+    <u8 as mmtk::util::metadata::MetadataValue>::fetch_or(a, v, o)
+}
+
+#[cfg(kani)]
+pub unsafe fn stub2_usize_store_atomic(a: Address, v: usize, _o: core::sync::atomic::Ordering) {
+    let i = swin_index(a.as_usize(), 8);
+    kani::assert(i < SWIN_LEN, "store outside the metadata windows");
+    core::ptr::write_unaligned(SWIN.0.as_mut_ptr().add(i) as *mut usize, v);
+}
+#[cfg(not(kani))]
+pub unsafe fn stub2_usize_store_atomic(a: Address, v: usize, o: core::sync::atomic::Ordering) {
+    <usize as mmtk::util::metadata::MetadataValue>::store_atomic(a, v, o)
+}
+
+#[cfg(kani)]
+pub unsafe fn stub2_usize_load_atomic(a: Address, _o: core::sync::atomic::Ordering) -> usize {
+    let i = swin_index(a.as_usize(), 8);
+    kani::assert(i < SWIN_LEN, "load outside the metadata windows");
+    core::ptr::read_unaligned(SWIN.0.as_ptr().add(i) as *const usize)
+}
+#[cfg(not(kani))]
+pub unsafe fn stub2_usize_load_atomic(a: Address, o: core::sync::atomic::Ordering) -> usize {
+    <usize as mmtk::util::metadata::MetadataValue>::load_atomic(a, o)
+}
